@@ -1,5 +1,5 @@
 (* Props/C04.v — decoding untrusted bytes is total, bounded and always progresses. *)
-Require Import Coq.Strings.String.
+Require Import Coq.Strings.String Net.Concrete.
 Require Import Base.Bytes Wire.Layout Wire.Customs Wire.LayoutProofs Wire.CustomProofs Wire.Packet Wire.PacketProofs.
 Require Import Gen.Packets Net.Frame Net.FrameProofs.
 Local Open Scope N_scope.
@@ -50,6 +50,13 @@ Theorem c04_removed_prefix_is_a_frame : forall m buf,
   | _ => True
   end.
 Proof. intros. apply decode_removes_wf_frame. Qed.
+
+(* the codec of the source keeps no state between calls: its struct has the size mode as its only field (regenerated
+   field names; the codec model is a pure function of the mode), and a connection struct has no field besides those
+   the connection models carry *)
+Theorem c04_codec_is_stateless_like_the_model : state_tied = true.
+Proof. vm_compute. reflexivity. Qed.
+
 
 Example c04_example_undersized : frame_decode Compressed [0; 3; 0; 0] = FrameErr. Proof. vm_compute. reflexivity. Qed.
 Example c04_example_cim_submode : frame_decode Compressed [2; 64; 0; 0; 0; 9; 0; 0] = Bad []. Proof. vm_compute. reflexivity. Qed.
